@@ -228,6 +228,16 @@ PROPS = {
         "partial": ["serde internals and derived decoders are not modelled: the unbounded claim is about hand-written string requests; the rest is the oracle"],
         "assumptions": COMMON_ASSUME,
     },
+    "C18": {
+        "claim": "Lean proves, for all inputs: the strip rule cuts the longest listed prefix that matches; the artifact map never silently replaces one file by another (a key already filed for a different file is an error) and has distinct keys; in_toto_run records materials before and products after the command and returns the command's byproducts. The tree walk (regular files reachable, following links to files/directories/links, cycles skipped) is an executable specification compared with record_artifacts on materialised random trees; digests are recomputed by the model's own SHA-256 (and ring for SHA-512).",
+        "level_note": "Trusted: Lean kernel; the operating system, walkdir and ring's digests are not verified - the walk model is validated differentially; claimed partial.",
+        "technique": 'Lean 4 theorems about an executable model + model/implementation correspondence check (differential run with property oracle)',
+        "rule": "ops = lstrip(path, strips) through record_artifact on a real file and record(tree, path arguments, strips) on materialised trees (depth <= 3, empty / small / 1020-1029-byte / multi-block files, names with spaces, Unicode, leading dots, absolute and relative links to files and directories, link chains, cycles, overlapping and non-normalised path arguments, strip lists, sha256/sha512/unknown algorithm); in_toto_run checked every 5th tree; distinct = distinct op; all record ops are non-trivial",
+        "trusted_base": ["OS file system semantics, walkdir 2 (follow_links, loop detection only when following a link), ring digests: modelled in Model/Record.lean as an executable specification, validated differentially",
+                         "process execution in in_toto_run (env.exec parameter)"],
+        "partial": ["walk = reachable files is not a theorem about the OS: differential only", "broken links are outside the generator (walkdir reports an error, the model too)"],
+        "assumptions": COMMON_ASSUME,
+    },
     "C19": {
         "claim": "Over the wire schemas and version string tables translated from the source on every run, Lean proves: no member set is admitted by two predicate formats or by two statement formats (so an accepted document is exactly one format version), the string tables are mutually inverse, and a decoded v0.1 statement's declared type is the version of the contained predicate. Round trips (canonical form parses back equal and byte-identical, timestamps keep instant and sub-second part), declared-type consistency and merge are checked on the real code for generated documents with every optional-field subset and every declared type string.",
         "level_note": "Trusted: Lean kernel; translate/schema.py (fails closed); serde-derive's field handling (required / deny_unknown_fields) as encoded in Model/Attest.lean; chrono for timestamps (oracle only).",
